@@ -21,7 +21,7 @@ OBLIGATIONS = [
         outside="Segmentation/read() above get_segment, the real reactor"),
     chx("whole_segment_read", "C46_h", "h_read",
         bounds={"quick": {"NSRV": 2, "NF": 3}, "thorough": {"NSRV": 3, "NF": 3}},
-        cases={"quick": [{"k": 1, "_label": "k1"}, {"k": 2, "_label": "k2"}],
+        cases={"quick": [{"k": k, "a0both": b, "_label": "k%d%s" % (k, ".both" if b else "")} for k in (1, 2) for b in (0, 1)],
                "thorough": [{"k": k, "a0": a, "_label": "3srv.k%da%d" % (k, a)} for k in (1, 2) for a in range(5)]
                            + [{"k": k, "a0": a, "NSRV": 2, "NF": 5, "_label": "2srv5f.k%da%d" % (k, a)} for k in (1, 2) for a in (2, 3, 4)]},
         timeout={"quick": 150, "thorough": 1500},
@@ -44,7 +44,7 @@ OBLIGATIONS = [
         outside="pause/resume/stopProducing of the consumer (C04), concurrent reads"),
     chx("fetcher_no_dead_state", "C03_h", "h_step",
         bounds={"quick": {"NREC": 2, "NSH": 2, "NSV": 2, "KMAX": 1, "LIMIT": 2, "k": 1}, "thorough": {"NREC": 2, "NSH": 3, "NSV": 2, "KMAX": 2, "LIMIT": 2}},
-        cases={"quick": [{"nms": m, "limit": l, "_label": "m%dl%d" % (m, l)} for m in (0, 1) for l in (1, 2)],
+        cases={"quick": [{"nms": m, "limit": l, "s0lo": z, "_label": "m%dl%d%s" % (m, l, "a" if z else "b")} for m in (0, 1) for l in (1, 2) for z in (1, 0)],
                "thorough": [{"k": k, "nms": m, "limit": l, "_label": "k%dm%dl%d" % (k, m, l)} for k in (1, 2) for m in (0, 1) for l in (1, 2)]},
         timeout={"quick": 150, "thorough": 1500},
         desc="clause (c) of the C03 fetcher step (same harness as C03/fetcher_step): after any event the SegmentFetcher has either notified the node (process_blocks / "
